@@ -13,7 +13,8 @@ def gen_type(rng, depth, ctx):
     if ctx['tparams']: opts += ['tparam', 'tparam']
     if depth > 0:
         opts += ['option', 'vec', 'box', 'tuple2', 'tuple1', 'array', 'hashmap', 'btreemap', 'pathvec', 'pathopt', 'phantom', 'unit', 'tuple3']
-        if ctx['lt']: opts += ['optref']
+        if ctx['lt']: opts += ['optref', 'vecref', 'optreftuple']
+        if ctx.get('lt2'): opts += ['optref2', 'optref2', 'optref2b']
         if ctx['constn']: opts += ['arrayn']
     k = rng.choice(opts)
     sub = lambda: gen_type(rng, depth - 1, ctx)
@@ -33,6 +34,14 @@ def gen_type(rng, depth, ctx):
     if k == 'pathvec': return f"std::vec::Vec<{sub()}>"
     if k == 'pathopt': return f"core::option::Option<{sub()}>"
     if k == 'phantom': return f"std::marker::PhantomData<{sub()}>"
+    if k == 'vecref':
+        ctx['used'].add("'" + ctx['lt']); return f"Vec<&'{ctx['lt']} {rng.choice(BASE)}>"
+    if k == 'optreftuple':
+        ctx['used'].add("'" + ctx['lt']); return f"Option<&'{ctx['lt']} ({rng.choice(BASE)}, {rng.choice(BASE)})>"
+    if k == 'optref2':      # the second lifetime occurs only INSIDE the referent of a reference that carries the first
+        ctx['used'].add("'" + ctx['lt']); ctx['used'].add("'" + ctx['lt2']); return f"Option<&'{ctx['lt']} Vec<&'{ctx['lt2']} {rng.choice(BASE)}>>"
+    if k == 'optref2b':
+        ctx['used'].add("'" + ctx['lt']); ctx['used'].add("'" + ctx['lt2']); return f"(Option<&'{ctx['lt2']} {rng.choice(BASE)}>, Option<&'{ctx['lt']} ({rng.choice(BASE)}, Option<&'{ctx['lt2']} {rng.choice(BASE)}>)>)"
     if k == 'optref':
         ctx['used'].add("'" + ctx['lt'])
         return f"Option<&'{ctx['lt']} {rng.choice(BASE)}>"
@@ -52,9 +61,10 @@ def gen_struct(rng, idx, allow_nested=True):
     # the header features are stratified over the declaration index so that every combination occurs, whatever the seed
     ntp = [0, 1, 2, 3, 1, 2][idx % 6]
     tparams = ['T', 'U', 'W'][:ntp]
-    lt = 'a' if (idx // 6) % 3 == 1 else None
+    lt = 'a' if (idx // 6) % 3 >= 1 else None
+    lt2 = 'b' if (idx // 6) % 3 == 2 else None
     constn = (idx // 18) % 2 == 1 and (idx % 5 != 0)
-    ctx = dict(tparams=tparams, lt=lt, constn=constn, used=set())
+    ctx = dict(tparams=tparams, lt=lt, lt2=lt2, constn=constn, used=set())
     nf = rng.choice([1, 2, 3, 4, 6])
     fields, checks, mks, frame = [], [], [], []
     nested_src = ''
@@ -119,6 +129,9 @@ def gen_struct(rng, idx, allow_nested=True):
     if lt and ("'" + lt) not in ctx['used']:
         fields.append(('lt_user', f"    pub lt_user: Option<&'{lt} u8>,")); mks.append("lt_user: Mk::mk(s + 5)"); frame.append("(r.lt_user != a.lt_user) as usize")
         checks.append("        if r.lt_user != b.lt_user { return Err(format!(\"plain field lt_user\")); }")
+    if lt2 and ("'" + lt2) not in ctx['used']:
+        fields.append(('lt2_user', f"    pub lt2_user: Option<&'{lt} Vec<&'{lt2} u8>>,")); mks.append("lt2_user: Mk::mk(s + 6)"); frame.append("(r.lt2_user != a.lt2_user) as usize")
+        checks.append("        if r.lt2_user != b.lt2_user { return Err(format!(\"plain field lt2_user\")); }")
     if constn and 'N' not in ctx['used']:
         fields.append(('arr_n', "    pub arr_n: [u8; N],")); mks.append("arr_n: Mk::mk(s + 7)"); frame.append("(r.arr_n != a.arr_n) as usize")
         checks.append("        if r.arr_n != b.arr_n { return Err(format!(\"plain field arr_n\")); }")
@@ -126,6 +139,7 @@ def gen_struct(rng, idx, allow_nested=True):
     bound_style = ['none', 'inline', 'where', 'mixed'][(idx // 2) % 4]
     gl, wl = [], []
     if lt: gl.append("'" + lt)
+    if lt2: gl.append("'" + lt2 + (": '" + lt if idx % 4 == 0 else ''))
     for j, t in enumerate(tparams):
         b = rng.choice(['Clone', 'Clone + PartialEq', 'std::fmt::Debug + Clone', 'PartialEq<' + t + '> + Clone'])
         if bound_style == 'inline' or (bound_style == 'mixed' and j % 2 == 0): gl.append(f"{t}: {b}")
@@ -136,13 +150,14 @@ def gen_struct(rng, idx, allow_nested=True):
         gl[-1] = gl[-1] + " = i64"; feats.append('default_type_param')
     if constn: gl.append("const N: usize"); feats.append('const_generic')
     if lt: feats.append('lifetime')
+    if lt2: feats.append('two_lifetimes')
     if tparams: feats.append('type_params_' + bound_style)
     gen = f"<{', '.join(gl)}>" if gl else ''
     where = f"\nwhere\n    {', '.join(wl)}," if wl else ''
-    args = ', '.join((["'static"] if lt else []) + ['i64' if j % 2 == 0 else 'String' for j, _ in enumerate(tparams)] + (['3'] if constn else []))
+    args = ', '.join((["'static"] if lt else []) + (["'static"] if lt2 else []) + ['i64' if j % 2 == 0 else 'String' for j, _ in enumerate(tparams)] + (['3'] if constn else []))
     inst = f"{name}<{args}>" if args else name
     impl_gen = gen.replace(' = i64', '')
-    impl_args = ', '.join((["'" + lt] if lt else []) + tparams + (['N'] if constn else []))
+    impl_args = ', '.join((["'" + lt] if lt else []) + (["'" + lt2] if lt2 else []) + tparams + (['N'] if constn else []))
     mk_bounds = ', '.join([f"{t}: Mk" for t in tparams])
     svis = rng.choice(['pub ', '', 'pub '])
     sattr = rng.choice(['', '', '#[difference(setters)]\n', '#[difference(expose)]\n', f'#[difference(expose = "{name}Diff")]\n'])
